@@ -1,14 +1,15 @@
 #!/bin/bash
-# tools/seedall2.sh <prop> ... : confirm and store round-2 seeds (c, d) from /var/tmp/seed2/out-<P>/
+# tools/seedstore.sh <srcdir> "<letters>" <prop> ... : confirm and store seeds from <srcdir>/out-<P>/<letter>/
+SRC="$1"; LET="$2"; shift 2
 for P in "$@"; do
- for X in c d; do
-  D=/var/tmp/seed2/out-$P/$X
+ for X in $LET; do
+  D=$SRC/out-$P/$X
   [ -f $D/patch.diff ] || continue
   OUT=/verif/seeded/$P-$X
   mkdir -p $OUT
   cp $D/patch.diff $D/meta.json $OUT/ 2>/dev/null
   cp $D/*_test.go $OUT/ 2>/dev/null
   VERIF_NO_RETRY=1 LINES_MAX=40 /verif/tools/seedcheck.sh $D ${PROPS_EXTRA:-} > $OUT/check.log 2>&1
-  echo "== $P-$X"; grep "CONFIRM\|exit=\|PATCH" $OUT/check.log
+  echo "== $P-$X $(grep -c 'CONFIRM.*yes' $OUT/check.log)/3 confirmed; $(grep 'exit=' $OUT/check.log | tr '\n' ' ')"
  done
 done
